@@ -2,12 +2,14 @@ import gfapy
 import re
 
 def unsafe_decode(string):
+  if len(string) == 0:
+    raise gfapy.FormatError(
+      "an oriented GFA2 identifier cannot be an empty string")
   return gfapy.OrientedLine(string[:-1], string[-1])
 
 def decode(string):
-  obj = unsafe_decode(string)
-  validate_decoded(obj)
-  return obj
+  validate_encoded(string)
+  return unsafe_decode(string)
 
 def validate_encoded(string):
   if not re.match("^[!-~]+[+-]$", string):
